@@ -41,6 +41,13 @@ class Scenario:
                         d.get("fmts", (None,)), d.get("mode", "th"), d.get("start_class"), d.get("cfg"))
 
 
+class _LocalManager:
+    """Stand-in for multiprocessing.Manager() inside scheduler-controlled runs (same `.list()` surface)."""
+
+    def list(self, *a):
+        return list(*a)
+
+
 class Observation:
     __slots__ = ("outcomes", "okeys", "final", "final_key", "deadlock", "hang", "locked", "mutex_owned",
                  "trace", "points", "yield_points", "events", "followup", "harness_errors", "reader_values",
@@ -130,10 +137,19 @@ class ScenarioRunner:
         shutil.copytree(self.template, self.rundir)
         self._root = os.path.abspath(self.rundir)
         self._env()
+        import multiprocessing as _mp
+        real_manager = _mp.Manager
+        if scn.mode == "mp":
+            # the scheduler replaces the manager-backed lists by plain lists right after construction;
+            # starting four manager server processes per schedule would only cost time
+            _mp.Manager = _LocalManager
         try:
             store = open_store(self.rundir, **scn.cfg)
         finally:
+            _mp.Manager = real_manager
             os.environ["USE_MULTIPROCESSING"] = "False"
+        if scn.mode == "mp" and not getattr(store, "use_multiprocessing", False):
+            raise Inconclusive("store built with USE_MULTIPROCESSING=True did not enter multiprocessing mode")
         holder = {}
         conds = S.instrument_store(store, lambda: holder.get("s"), scn.mode)
         env = World(self.scratch, self.contents, self.docs, pids=scn.pids, fmts=scn.fmts,
